@@ -37,13 +37,36 @@ Definition sinv_wf (tol : float) (n : nat) (sinv : list (list float)) : bool :=
   forallb (fun i => PrimFloat.ltb 0%float (mget FOps sinv i i) &&
      forallb (fun j => feq_abs tol big (mget FOps sinv i j) (mget FOps sinv j i)) (seq 0 n)) (seq 0 n).
 
+(* the hypothesis of C17_mahalanobis_metric (positive semi-definite) as far as evaluation can see it:
+   the Cholesky factorisation of the symmetric part of the stored inverse succeeds with positive pivots *)
+Definition fdot (a b : list float) : float :=
+  fold_left (fun s ab => PrimFloat.add s (PrimFloat.mul (fst ab) (snd ab))) (combine a b) 0%float.
+Fixpoint chol_row (srow : list float) (lprev : list (list float)) (acc : list float) : list float :=
+  match srow, lprev with
+  | s :: srow', lj :: lprev' =>
+      chol_row srow' lprev' (acc ++ [PrimFloat.div (PrimFloat.sub s (fdot acc lj)) (last lj 1%float)])
+  | _, _ => acc
+  end.
+Fixpoint chol_go (rows : list (list float)) (i : nat) (l : list (list float)) : bool :=
+  match rows with
+  | [] => true
+  | r :: rows' =>
+      let acc := chol_row r l [] in
+      let d := PrimFloat.sub (nth i r 0%float) (fdot acc acc) in
+      if PrimFloat.ltb 0%float d then chol_go rows' (S i) (l ++ [acc ++ [PrimFloat.sqrt d]]) else false
+  end.
+Definition sym_part (n : nat) (m : list (list float)) : list (list float) :=
+  map (fun i => map (fun j => PrimFloat.mul 0.5%float (PrimFloat.add (mget FOps m i j) (mget FOps m j i)))
+                    (seq 0 n)) (seq 0 n).
+Definition sinv_pd (n : nat) (sinv : list (list float)) : bool := chol_go (sym_part n sinv) 0 [].
+
 (* Mahalanobis::distance on the implementation's own sigmaInv (nrows = sigma.shape().0) *)
 Definition corr_mahalanobis (nrows : N) (sinv : list (list float)) (x y : list float)
            (expected : option float) : bool :=
   option_eqb feq (mahalanobis FOps (to_nat nrows) sinv x y) expected.
 Definition corr_mahalanobis_wf (tol : float) (nrows : N) (sinv : list (list float)) (x y : list float)
            (expected : option float) : bool :=
-  sinv_wf tol (to_nat nrows) sinv && corr_mahalanobis nrows sinv x y expected.
+  sinv_wf tol (to_nat nrows) sinv && sinv_pd (to_nat nrows) sinv && corr_mahalanobis nrows sinv x y expected.
 
 (* DenseMatrix::cov = the sigma stored by Mahalanobis::new *)
 Definition corr_cov (ncols : N) (rows : list (list float)) (expected : option (list (list float))) : bool :=
